@@ -28,6 +28,8 @@ from contracts import fanout_common as fc
 
 _c = {}
 
+ALWAYS_STANDIN = True      # cross-process / contended-open scenarios run natively on every change
+
 
 def cctx():
     if 'c' not in _c:
@@ -363,8 +365,71 @@ def _subterms(t, seen=None):
             yield x
 
 
+def sql_retry():
+    """Cache._sql_retry -- the statement runner used while a handle opens (reading and writing Settings):
+    a 'database is locked' failure is retried, and given up only after the fixed budget of 60 seconds
+    measured on time.time() (pinned: source comment, Issue #85) -- in particular independently of the
+    connection timeout, which is 0 while __init__ runs; any other error propagates at once.  Giving up
+    early would make __init__ mistake a briefly locked database for a new one and overwrite its settings."""
+    from pyvc.loops import LoopSpec
+    from contracts import c03
+    ctx = cctx()
+    out = []
+    q = 'diskcache.core.Cache._sql_retry.<locals>._execute_with_retry'
+    ctx.loop_invariants[(q, 0)] = LoopSpec('C18.sql_retry.loop', lambda it, fr, i: z3.BoolVal(True))
+
+    def run(st):
+        it = ctx.interp(st)
+
+        def sql(it2, a, k):
+            d = it2.st.decide(3)
+            it2.st.effect('TRY', outcome=d)
+            if d == 1:
+                raise_py('sqlite3.OperationalError', 'database is locked')
+            if d == 2:
+                raise_py('sqlite3.OperationalError', 'no such table: Settings')
+            return Opaque('other', it2.st.fresh('cursor', OTHER))
+        ctx.hooks['diskcache.core.Cache._sql'] = lambda it2, f, a, k: EnvFunc('sql', sql)
+        try:
+            cache = ctx.new_obj('diskcache.core.Cache', {'_timeout': st.fresh_sv('timeout', 'real')})
+            runner = it.getattr(cache, '_sql_retry')
+            return it.call(runner, ['SELECT key, value FROM Settings'], {})
+        finally:
+            ctx.hooks.pop('diskcache.core.Cache._sql', None)
+    n_paths = 0
+    for n, p in enumerate(explore(run)):
+        st = p.state
+        base = 'C18.sql_retry#%d' % n
+        for o in st.obligations:
+            out.append(discharge('%s/%s' % (base, o.name), o.kind, o.pc, o.goal, function='Cache._sql_retry', path=p.decisions))
+        tries = [e[1]['outcome'] for e in st.trace if e[0] == 'TRY']
+        ts = c03.clock_readings(st)
+        sleeps = [e for e in st.trace if e[0] in ('SLEEP',)]
+        n_paths += 1
+        if p.kind == 'raise':
+            last = tries[-1] if tries else None
+            if last == 2:
+                out.append(R(base + '.other_errors_propagate', p.value.cls == 'sqlite3.OperationalError', 'Cache._sql_retry',
+                             'raises %r' % (p.value,), path=p.decisions))
+            elif last == 1 and len(ts) >= 2:
+                # gave up on a locked database: more than 60 s between the first and the latest clock reading
+                out.append(discharge(base + '.gives_up_only_after_60s', 'post', p.pc, z3.Or(*[t - ts[0] > 60 for t in ts[1:]]),
+                                     function='Cache._sql_retry', path=p.decisions))
+            else:
+                out.append(R(base + '.gives_up_only_after_60s', False, 'Cache._sql_retry',
+                             'raises %r after attempts %r with %d clock readings' % (p.value, tries, len(ts)), path=p.decisions))
+        elif p.kind == 'return':
+            out.append(R(base + '.returns_the_cursor', tries and tries[-1] == 0 and isinstance(p.value, Opaque), 'Cache._sql_retry',
+                         'returns %r after %r' % (p.value, tries), path=p.decisions))
+        else:   # cut: another round
+            out.append(R(base + '.retries_only_locked', tries and tries[-1] == 1, 'Cache._sql_retry', 'retries after %r' % tries, path=p.decisions))
+    if n_paths == 0:
+        out.append(Result('C18.sql_retry', 'vacuity', 'error', detail='no paths'))
+    return out
+
+
 def tasks(tier):
-    ts = [('contracts.c18', 'getstate_setstate', ()), ('contracts.c18', 'fanout_init', ()),
+    ts = [('contracts.c18', 'getstate_setstate', ()), ('contracts.c18', 'fanout_init', ()), ('contracts.c18', 'sql_retry', ()),
           ('contracts.c18', 'con_reconnects', ()), ('contracts.c18', 'close_idempotent', ()),
           ('contracts.c18', 'format_pins', ()), ('contracts.c18', 'settings_merge', ())]
     from contracts.disk_common import KEY_CLASSES
